@@ -42,6 +42,10 @@ func parseEventJSON(data []byte) string {
 	return fmt.Sprintf("%s %s,%s,%s,%d,%d,%d,%d,%s,%s", ev.Operation, h.Hash, h.PreviousBlock, h.MerkleRoot, h.Height, h.Version, h.Timestamp.Unix(), h.Nonce, h.CumulatedWork.String(), h.State)
 }
 
+// prodFirst: the first healthy webhook's address has upper-case letters in path and query (both case-sensitive parts
+// of a URL): the events must arrive at exactly the registered address.
+const prodFirst = "/First/BHS/newHeader?apiKey=AbC123xYz"
+
 type prodHooks struct {
 	srv     *httptest.Server
 	st      *lib.Stack
@@ -58,14 +62,15 @@ func newProdHooks(tag string) (*prodHooks, error) {
 	p := &prodHooks{got: map[string][]string{}, release: make(chan struct{})}
 	p.srv = httptest.NewServer(http.HandlerFunc(func(w http.ResponseWriter, r *http.Request) {
 		b, _ := io.ReadAll(r.Body)
+		uri := r.URL.RequestURI() // path and query exactly as the service sent them (both are case-sensitive)
 		p.mu.Lock()
-		p.got[r.URL.Path] = append(p.got[r.URL.Path], parseEventJSON(b))
-		nth := len(p.got[r.URL.Path])
+		p.got[uri] = append(p.got[uri], parseEventJSON(b))
+		nth := len(p.got[uri])
 		p.mu.Unlock()
 		// every fourth request to the healthy first webhook: the receiver has read (and recorded) the event and its
 		// connection — a keep-alive connection reused from earlier deliveries — is cut before any answer. The service books
 		// a failed delivery; the event must not be sent a second time (one ADD per stored header and channel)
-		if strings.HasPrefix(r.URL.Path, "/first") && nth%4 == 3 {
+		if uri == prodFirst && nth%4 == 3 {
 			if hj, ok := w.(http.Hijacker); ok {
 				if conn, _, err := hj.Hijack(); err == nil {
 					_ = conn.Close()
@@ -82,7 +87,7 @@ func newProdHooks(tag string) (*prodHooks, error) {
 		w.WriteHeader(200)
 		// a reply the client cannot have completely in hand when the response head arrives: flushed head, then a body
 		// that keeps coming in pieces (what a receiver behind a streaming proxy answers)
-		if f, ok := w.(http.Flusher); ok && strings.HasPrefix(r.URL.Path, "/first") {
+		if f, ok := w.(http.Flusher); ok && uri == prodFirst {
 			f.Flush()
 			chunk := []byte(strings.Repeat("acknowledged ", 512))
 			for i := 0; i < 12; i++ {
@@ -102,7 +107,7 @@ func newProdHooks(tag string) (*prodHooks, error) {
 		return nil, err
 	}
 	p.st = st
-	for _, path := range []string{"/first", "/silent", "/after"} {
+	for _, path := range []string{prodFirst, "/silent", "/after"} {
 		if _, err := st.Svc.Webhooks.CreateWebhook("BEARER", "", "t", p.srv.URL+path); err != nil {
 			p.close()
 			return nil, fmt.Errorf("create webhook: %v", err)
@@ -134,7 +139,7 @@ func (p *prodHooks) close() {
 // end of its history's ingestion.
 func (p *prodHooks) verify(c *Ctx, patience time.Duration) {
 	want := strings.Join(sortedCopy(p.want), "\n")
-	for _, path := range []string{"/first", "/after"} {
+	for _, path := range []string{prodFirst, "/after"} {
 		budget := 5 * time.Second
 		if path == "/after" {
 			budget = time.Until(p.started.Add(patience))
